@@ -165,10 +165,14 @@ def user_defined_part(ctx, count, scratch):
         info = np.zeros((2, side * side))
         rk = list(range(side * side)); rng.shuffle(rk)
         ctx.evaluations += 1
+        # the sensor permutation as the caller happens to store it (argsort gives int64, compact storage uses unsigned types)
+        rdt = rng.choice(["int64", "int64", "int32", "uint32", "uint16", "uint8", "int16"])
+        rk_arr = np.array(rk, dtype=rdt)
+        ctx.count("ranking_dtype:" + rdt)
         if rng.random() < 0.5:
             eq, f = rng.choice(EQS)
             ctx.count("equation")
-            obj = U.UserDefinedConstraints(np.array(rk), data=info, equation=eq)
+            obj = U.UserDefinedConstraints(rk_arr, data=info, equation=eq)
             got, _ = obj.constraint()
             want = [s for s in rk if f(s % side, s // side)]
             what = f"equation '{eq}' marks {got}, sensors where it is true: {want}"
@@ -182,7 +186,7 @@ def user_defined_part(ctx, count, scratch):
                 fh.write(f"def {name}(x, y, **kw):\n    {body}\n")
             sys.modules.pop(name, None)
             try:
-                obj = U.UserDefinedConstraints(np.array(rk), data=info, file=path)
+                obj = U.UserDefinedConstraints(rk_arr, data=info, file=path)
                 got, _ = obj.constraint()
             except Exception as e:
                 ctx.violation("concrete", f"file constraint in '{name}.py' could not be loaded/evaluated: {type(e).__name__}: {e}",
